@@ -49,7 +49,21 @@ def judge(ctx, obs, stats, prop="C08"):
     return res, distinct, classes, samples
 
 
+def pair_model(ctx):
+    """design level: two endpoints that both react as HsmsSS!Respond says (the operator the recordings below bind to the
+    code), joined by FIFO pipes, with the Select initiator, T6/T7, Close/Separate, linktests and link losses: agreement at
+    rest, no mutual Reject, nothing across generations, Selected for good once the faults stop (impl/HsmsPair)"""
+    work = common.stage_spec(os.path.join(ctx.tmp, "spec-pair"))
+    out = {}
+    for cfg in (["MC_HsmsPair.cfg", "MC_HsmsPair_foreign.cfg"] if ctx.quick else ["MC_HsmsPair.cfg", "MC_HsmsPair_foreign.cfg", "MC_HsmsPair_thorough.cfg"]):
+        r = common.run_tlc(work, "MC_HsmsPair", cfg=cfg, workers=6, timeout=1500)
+        common.require_ok(r, "MC_HsmsPair " + cfg)
+        out[cfg] = dict(distinct=r["distinct"], generated=r["generated"], depth=r["depth"])
+    return out
+
+
 def run(ctx):
+    pair = pair_model(ctx)
     obs = os.path.join(ctx.tmp, "c08_obs.ndjson")
     stats = record(ctx, obs, 2 if ctx.quick else 3, 150 if ctx.quick else 1500)
     if stats["faults"] > max(3, stats["lines"] // 200):
@@ -62,7 +76,7 @@ def run(ctx):
                         "orphan Reject.req, data primary W / no W, data secondary, data with foreign session id, control frame with body, "
                         "non-zero PType, undefined SType x2, foreign-sid S9F1; active role adds the Select.rsp status) played with "
                         "barriers or as a burst; distinct = distinct (role, validation, mode, sequence)",
-                   classes=classes, harness_faults=stats["faults"], select_then_deselect_bursts=stats.get("select_deselect_bursts", 0), exhaustive=False, samples=samples,
+                   pair_model=pair, classes=classes, harness_faults=stats["faults"], select_then_deselect_bursts=stats.get("select_deselect_bursts", 0), exhaustive=False, samples=samples,
                    checker_cmd="vh c08; tlc OracleHsmsSS")
     ctx.assumptions += ["loopback TCP; T6=3s, T7=30s so that no protocol timer fires inside a scenario",
                         "when a burst itself ends the connection, answers still queued behind it may be discarded (prefix accepted)"]
